@@ -55,7 +55,8 @@ def qr_jobs(rng, quick):
 
     def add(content, level, mode, **kw):
         jobs.append(gen.enc("qr", content if isinstance(content, (bytes, list)) else onedim.U(content), (level, mode), **kw))
-    versions = list(range(1, 9)) + sorted(rng.sample(range(9, 27), 3) + rng.sample(range(27, 41), 3)) if quick else list(range(1, 41))
+    # quick: versions 1-8, the versions where the character-count field width changes (9|10, 26|27), 40, and seeded others
+    versions = sorted(set(list(range(1, 9)) + [9, 10, 26, 27, 40] + rng.sample(range(11, 26), 2) + rng.sample(range(28, 40), 2))) if quick else list(range(1, 41))
     apimode = {1: 1, 2: 2, 4: 3}
     for v in versions:
         for level in range(4):
